@@ -1019,7 +1019,7 @@ pub fn run(tier: Tier, seed: u64, findings: &Findings) -> i32 {
     let cfg = RunCfg { prop: "C16", tier, seed };
     let check = C16;
     let mut report = super::run_regress(&check, &cfg, findings);
-    let cases = tier.pick(4000, 300_000);
+    let cases = tier.pick(24_000, 600_000);
     report.merge(engine::run_generated(&check, &cfg, cases, 8, 16, findings, 0));
     engine::finish(
         Finish {
